@@ -7,6 +7,7 @@ from typing import Any, Dict, List, Optional, Tuple
 from .aval import AVal, NOCONST, St, st_join
 from .index import unparse
 from .lin import Lin, atom_deps
+from .types import members
 
 MUTATORS = {"append", "appendleft", "add", "pop", "popleft", "clear", "discard", "remove", "extend", "insert",
             "update", "sort", "reverse", "setdefault", "popitem", "put", "put_nowait", "get_nowait"}
@@ -69,7 +70,28 @@ class StmtMixin:
         if isinstance(t, ast.Attribute):
             st, base = self.ev(st, t.value)
             st = self.kill_heap(st, [t.attr])
+            if v.taint and not self.__dict__.get("_quiet", 0):
+                if t.attr not in self.tainted_attrs:
+                    self.tainted_attrs.add(t.attr)
+                    self.tainted_attrs_grew = True
+            if (v.elem is not None or v.elems is not None) and not self.__dict__.get("_quiet", 0):
+                self.note_attr_val(t.attr, v)
+            if self.cfg.guard_implies and self.fi.cls is not None and isinstance(t.value, ast.Name):
+                for c, g, imp in self.cfg.guard_implies:
+                    if g == t.attr and any(x.qualname == c for x in self.prog.mro(self.fi.cls)):
+                        falsy = v.const is not NOCONST and not v.const
+                        if not falsy:
+                            ok = st.f.has_pred(("notnone", f"{t.value.id}.{imp}"))
+                            self.oblige(st, t, "guard", "TypeError", ok,
+                                        f"`{t.value.id}.{g}` is set while `{t.value.id}.{imp}` may still be None; readers of "
+                                        f"`{g}` rely on it implying `{imp}` is not None",
+                                        by=f"{t.value.id}.{imp} is not None here")
             a = self.atom_of(t)
+            # aliasing an object: facts about the source's attributes also hold for the new path
+            if a is not None and value_node is not None:
+                src = self.atom_of(value_node)
+                if src is not None and src != a:
+                    st = self._copy_facts(st, src, a)
             if a is not None:
                 f = st.f
                 if v.kind == "none" or v.const is None:
@@ -88,6 +110,8 @@ class StmtMixin:
                 if v.length is not None:
                     f2 = f.add_eq(Lin.atom(f"len({a})") - v.length)
                     f = f2 if f2 is not None else f
+                f = self._float_preds(f, a, v)
+                f = self._elem_len_facts(f, a, v)
                 st = st.with_f(f) or st
             return st
         if isinstance(t, ast.Subscript):
@@ -118,6 +142,69 @@ class StmtMixin:
         if isinstance(t, ast.Starred):
             return self.assign(st, t.value, v, None)
         return st
+
+    def note_attr_val(self, attr: str, v: AVal) -> None:
+        old = self.attr_vals.get(attr)
+        shape = AVal(kind=v.kind, elems=v.elems, elem=v.elem, taint=v.taint)
+        if old is None:
+            self.attr_vals[attr] = shape
+        else:
+            j = self.join_vals(old, shape)
+            if j is not None:
+                if j.elem is None:
+                    j.elem = old.elem or shape.elem
+                self.attr_vals[attr] = j
+
+    def _elem_len_facts(self, f, a: str, v: AVal):
+        if v.elems is not None and v.kind in ("list", "tuple") and len(v.elems) <= 8:
+            for i, x in enumerate(v.elems):
+                if x.length is not None and x.length.is_const() and x.kind in ("list", "tuple", "bytes"):
+                    f2 = f.add_eq(Lin.atom(f"len({a}[{i}])") - x.length)
+                    f = f2 if f2 is not None else f
+        return f
+
+    def _float_preds(self, f, a: str, v: AVal):
+        if v.kind == "float" or isinstance(v.lo, float) or isinstance(v.hi, float) or (v.kind is None and v.lin is None):
+            lo, hi = v.lo, v.hi
+            if v.const is not NOCONST and isinstance(v.const, (int, float)) and not isinstance(v.const, bool):
+                lo = hi = v.const
+            if lo is not None:
+                f = f.add_pred(("flo", a, lo))
+            if hi is not None:
+                f = f.add_pred(("fhi", a, hi))
+        elif v.kind in ("int", "bool") and v.const is not NOCONST and isinstance(v.const, int):
+            # ints stored into float-typed fields (self.var_noise = 1)
+            f = f.add_pred(("flo", a, int(v.const))).add_pred(("fhi", a, int(v.const)))
+        return f
+
+    def _copy_facts(self, st: St, src: str, dst: str) -> St:
+        f = st.f
+
+        def m(a: str):
+            if a.startswith(src + ".") or a.startswith(src + "["):
+                return dst + a[len(src):]
+            if a.startswith("len(" + src + ".") or a.startswith("len(" + src + "["):
+                return "len(" + dst + a[4 + len(src):]
+            return None
+
+        def mp(a: str):
+            r = m(a)
+            return r if r is not None else a
+
+        for G in list(f.ge):
+            if any(m(a) for a in G.atoms()):
+                r = G.rename(mp)
+                if r is not None:
+                    f2 = f.add_ge(r); f = f2 if f2 is not None else f
+        for E in list(f.eq):
+            if any(m(a) for a in E.atoms()):
+                r = E.rename(mp)
+                if r is not None:
+                    f2 = f.add_eq(r); f = f2 if f2 is not None else f
+        for p in list(f.preds):
+            if p[0] in ("none", "notnone", "truthy") and isinstance(p[1], str) and m(p[1]):
+                f = f.add_pred((p[0], m(p[1])))
+        return st.with_f(f) or st
 
     def assign_name(self, st: St, name: str, v: AVal, value_node: Optional[ast.expr]) -> St:
         f = st.f
@@ -169,9 +256,27 @@ class StmtMixin:
         if v.length is not None and f"len({name})" not in v.length.atoms():
             f2 = f.add_eq(Lin.atom(f"len({name})") - v.length)
             f = f2 if f2 is not None else f
+        if v.ubound is not None and not any(name in atom_deps(a)[0] for a in v.ubound.atoms()):
+            f2 = f.add_ge(v.ubound - Lin.atom(name))
+            f = f2 if f2 is not None else f
         # aliasing of heap containers: x = self.q  ->  len(x) == len(self.q) handled by length above
         vals = self.__dict__.setdefault("_name_vals", {})
         vals[(self.ctx, self.fi.qualname, name)] = v
+        f = self._float_preds(f, name, v)
+        f = self._elem_len_facts(f, name, v)
+        fields = getattr(v, "fields", None)
+        if fields:
+            for fname, fv in fields.items():
+                if fv.const is not NOCONST and isinstance(fv.const, (int, bool)):
+                    f2 = f.add_eq(Lin.atom(f"{name}.{fname}").shift(-int(fv.const)))
+                    f = f2 if f2 is not None else f
+                elif fv.const is None and fv.kind == "none":
+                    f = f.add_pred(("none", f"{name}.{fname}"))
+        if value_node is not None:
+            src = self.atom_of(value_node)
+            if src is not None and src != name:
+                st2 = self._copy_facts(st.with_f(f) or st, src, name)
+                return st2
         return st.with_f(f) or st
 
     def name_val(self, name: str) -> Optional[AVal]:
@@ -202,6 +307,27 @@ class StmtMixin:
                         return St(f, st.defd | {name}, st.taint | ({name} if v.taint else set()))
                 f = f.kill(names=[name])
                 return St(f, st.defd | {name}, st.taint | ({name} if v.taint else set()))
+            if v.lin is None and isinstance(s.op, (ast.Add, ast.Sub)) and v.kind in (None, "int"):
+                # x += e with e non-linear but bounded: x := x + t for a fresh ghost t in e's interval
+                saved_q = self.__dict__.get("_quiet", 0)
+                self._quiet = saved_q + 1
+                try:
+                    _, rv = self.ev(st, s.value)
+                finally:
+                    self._quiet = saved_q
+                lo, hi = self.val_bounds(st, rv)
+                if lo is not None or hi is not None:
+                    name = s.target.id
+                    g = self.fresh_ghost(s, "t")
+                    f = st.f.kill(names=[g])
+                    if lo is not None:
+                        f2 = f.add_ge(Lin.atom(g).shift(-lo)); f = f2 if f2 is not None else f
+                    if hi is not None:
+                        f2 = f.add_ge((-Lin.atom(g)).shift(hi)); f = f2 if f2 is not None else f
+                    delta = Lin.atom(g) if isinstance(s.op, ast.Add) else -Lin.atom(g)
+                    f = f.subst_atom(name, Lin.atom(name) - delta)
+                    f = _kill_dependents(f, name)
+                    return St(f, st.defd | {name}, st.taint | ({name} if v.taint else set()))
             return self.assign_name(st, s.target.id, v, None)
         if isinstance(s.target, ast.Attribute):
             a = self.atom_of(s.target)
@@ -247,6 +373,9 @@ class StmtMixin:
         # truthiness of a name/attribute/subscript atom
         a = self.atom_of(test)
         if a is not None:
+            cv = self._val_of(st, test)
+            if cv.const is not NOCONST and isinstance(cv.const, (int, str, bytes, bool, float, type(None), tuple)):
+                return st if bool(cv.const) == truth else None
             if f.has_pred(("none", a)):
                 return None if truth else st
             kind = self.static_kind(test)
@@ -254,7 +383,13 @@ class StmtMixin:
             if kind is None and v is not None:
                 kind = v.kind
             if truth:
+                if kind in ("int", "bool") and f.entails_eq(Lin.atom(a)):
+                    return None
                 f2 = f.add_pred(("notnone", a)).add_pred(("truthy", a))
+                if isinstance(test, ast.Attribute) and isinstance(test.value, ast.Name) and self.fi.cls is not None:
+                    for c, g, imp in self.cfg.guard_implies:
+                        if g == test.attr and any(x.qualname == c for x in self.prog.mro(self.fi.cls)):
+                            f2 = f2.add_pred(("notnone", f"{test.value.id}.{imp}"))
                 if kind in ("bytes", "str", "list", "deque", "set", "dict", "tuple"):
                     f2 = f2.add_ge(Lin.atom(f"len({a})").shift(-1)) if f2 is not None else None
                 elif kind in ("int",):
@@ -263,6 +398,11 @@ class StmtMixin:
             else:
                 t = self.types.type_of(test, self.fi)
                 optional = self._is_optional(test)
+                if kind in ("obj",) or (t is not None and all(m[0] in ("inst", "ext", "none") for m in members(t))):
+                    # instances of ordinary classes / external objects are always truthy: falsy means None
+                    if f.has_pred(("notnone", a)):
+                        return None
+                    return st.with_f(f.add_pred(("none", a)))
                 if kind in ("bytes", "str", "list", "deque", "set", "dict", "tuple") and not optional:
                     return st.with_f(f.add_eq(Lin.atom(f"len({a})")))
                 if kind in ("int",) and not optional:
@@ -371,11 +511,24 @@ class StmtMixin:
                 return st.with_f(f2)
             # len(x) == c through length linear forms
             return st
-        if lv.lin is None or rv.lin is None:
-            # float comparisons: keep simple sign facts for `x > 0` style tests on non-linear values
-            return st
-        if lv.kind == "float" or rv.kind == "float":
-            return st
+        if lv.kind == "float" or rv.kind == "float" or lv.lin is None or rv.lin is None:
+            kind = type(op)
+            if not truth:
+                kind = {ast.Lt: ast.GtE, ast.LtE: ast.Gt, ast.Gt: ast.LtE, ast.GtE: ast.Lt}.get(kind, kind)
+            la, ra = self.atom_of(left), self.atom_of(right)
+            llo, lhi = self.val_bounds(st, lv)
+            rlo, rhi = self.val_bounds(st, rv)
+            if kind in (ast.Lt, ast.LtE):
+                if la is not None and rhi is not None:
+                    f = f.add_pred(("fhi", la, rhi))
+                if ra is not None and llo is not None:
+                    f = f.add_pred(("flo", ra, llo))
+            elif kind in (ast.Gt, ast.GtE):
+                if la is not None and rlo is not None:
+                    f = f.add_pred(("flo", la, rlo))
+                if ra is not None and lhi is not None:
+                    f = f.add_pred(("fhi", ra, lhi))
+            return st.with_f(f)
         a, b = lv.lin, rv.lin
         kind = type(op)
         if not truth:
@@ -399,6 +552,10 @@ class StmtMixin:
         from .report import norm
         if (fi.qualname, norm(unparse(s.test))) in self.cfg.exempt_asserts:
             self.oblige(st_false, s, "assert", "AssertionError", True, "assertion exempted", by="exemption table")
+            return
+        tv = self._val_of(st_false, s.test)
+        if not tv.taint:
+            self.skip(s, "assert", "assertion over local state only (no operand derived from received data)")
             return
         self.oblige(st_false, s, "assert", "AssertionError", False,
                     f"`assert {unparse(s.test)}` is not entailed by the facts on this path")
@@ -443,6 +600,32 @@ class StmtMixin:
         rng = self._range_args(st, s.iter)
         rec = self.loop_records.setdefault((self.ctx, id(s)), {"back": [], "node": s, "func": self.fi.qualname})
         rec["range"] = rng
+        itv = self._val_of(st, s.iter)
+        rec["iter_taint"] = itv.taint
+        rec["tied"] = None
+        rec["local_bound"] = None
+        if rng is not None and isinstance(s.iter, ast.Call) and s.iter.args:
+            stop_node = s.iter.args[0] if len(s.iter.args) == 1 else s.iter.args[1]
+            while isinstance(stop_node, ast.BinOp) and isinstance(stop_node.op, (ast.Add, ast.Sub)) and \
+                    self.prog.try_const(stop_node.right, self.fi.module, self.fi.cls) is not None:
+                stop_node = stop_node.left
+            if isinstance(stop_node, ast.Call) and isinstance(stop_node.func, ast.Name) and stop_node.func.id == "min" \
+                    and not self.is_local("min"):
+                for a in stop_node.args:
+                    if not self._val_of(st, a).taint:
+                        rec["local_bound"] = unparse(a)
+                        break
+        if rng is not None and rng[0].lin is not None and rng[1].lin is not None:
+            trip = rng[1].lin - rng[0].lin
+            atoms = set()
+            for X in list(st.f.ge) + list(st.f.eq):
+                for a in X.atoms():
+                    if a.startswith("len("):
+                        atoms.add(a)
+            for a in sorted(atoms):
+                if st.f.entails_ge(Lin.atom(a) - trip):
+                    rec["tied"] = a
+                    break
         return st
 
     def _range_args(self, st: St, it: ast.expr):
@@ -462,7 +645,7 @@ class StmtMixin:
         names = [n.id for n in ast.walk(s.target) if isinstance(n, ast.Name)]
         it = self._val_of(st, s.iter)
         rng = self._range_args(st, s.iter)
-        tainted = it.taint or self.is_wire_typed(s.iter)
+        tainted = it.taint
         f = st.f
         if rng is not None:
             start, stop, step = rng
